@@ -332,11 +332,11 @@ def sccs(nodes, succ):
     return out
 
 
-def reachable_assuming(fn, call_value=None, start=0, max_states=20000, place_value=None, avoid=()):
+def reachable_assuming(fn, call_value=None, start=0, max_states=20000, place_value=None, avoid=(), fixed=None):
     """Path-sensitive reachability with boolean constant propagation (P9b).
 
     `place_value(place)` gives the assumed value of a projected place read (e.g. a config field);
-    blocks in `avoid` are not entered.
+    blocks in `avoid` are not entered; `fixed` maps locals to a value they hold whenever read (never dropped).
     `call_value(block, term)` returns True/False/"nz" (a non-zero integer)/None for the result of
     the call terminating `block`.  Starting at `start`, every feasible path is explored while
     tracking the value of projection-free bool/int temporaries that are determined by the
@@ -348,6 +348,8 @@ def reachable_assuming(fn, call_value=None, start=0, max_states=20000, place_val
         if op[0] == "k":
             return op[2] if isinstance(op[2], (bool, int)) else None
         if op[0] in ("c", "m") and not op[1][1]:
+            if fixed and op[1][0] in fixed:
+                return fixed[op[1][0]]
             return env.get(op[1][0])
         if op[0] in ("c", "m") and place_value is not None:
             return place_value(op[1])
@@ -376,7 +378,9 @@ def reachable_assuming(fn, call_value=None, start=0, max_states=20000, place_val
                     v = not x
             elif rv[0] == "bin" and rv[1] in ("Eq", "Ne", "Gt", "Lt", "Ge", "Le"):
                 x, y = val(env, rv[2]), val(env, rv[3])
-                if x == "nz" and y == 0 and not isinstance(y, bool):
+                if isinstance(x, int) and isinstance(y, int) and not isinstance(x, bool) and not isinstance(y, bool):
+                    v = {"Eq": x == y, "Ne": x != y, "Gt": x > y, "Ge": x >= y, "Lt": x < y, "Le": x <= y}[rv[1]]
+                elif x == "nz" and y == 0 and not isinstance(y, bool):
                     v = {"Eq": False, "Ne": True, "Gt": True, "Ge": True, "Lt": False, "Le": False}[rv[1]]
                 elif y == "nz" and x == 0 and not isinstance(x, bool):
                     v = {"Eq": False, "Ne": True, "Lt": True, "Le": True, "Gt": False, "Ge": False}[rv[1]]
